@@ -245,6 +245,9 @@ def instance_skipped_only_for_documented_reasons(ctx):
             base = re.sub(r"^\*|\.has_value\(\)$|\.value\(\)$|\.operator bool\(\)$", "", k)
             if base in opened or base in probes or k.startswith("this->registerRunnableRulesetForCgroupPath("):
                 ok = True
+            # the xattr test moved into a helper: a call that is handed the opened directory and the filter's name
+            if "(" in k and "xattr_filter_" in k and any(re.search(r"(?<![\w.])%s(?![\w])" % re.escape(o_), k) for o_ in opened):
+                ok = True
         ctx.check(ok, "instance-skipped-only-for-documented-reasons", "guarded_by (lexical)", ro.loc(i),
                   "a matching cgroup is passed over only when it cannot be opened, fails the xattr filter or its instance cannot be created",
                   "a cgroup that still matches the ruleset's pattern is passed over under %s: its instance is dropped by the sweep together with its "
@@ -390,7 +393,8 @@ def run(ctx):
     fd = Flow(P, ro, cg=ctx.cg)
     for i in er:
         g = fd.guards(i)
-        ctx.check(any(p is False and k.startswith("visited.contains(") for k, p in g) or
+        ctx.check(any(p is False and (k.startswith("visited.contains(") or re.match(r"^visited\.count\(.*\)$", k)) for k, p in g) or
+                  any(p is True and re.match(r"^\((0 == visited\.count\(.*\)|visited\.count\(.*\) == 0)\)$", k) for k, p in g) or
                   any(p is True and "visited.end()" in k and "visited.find(" in k for k, p in g),
                   "drop-only-unvisited", "guarded_by", ro.loc(i), "only instances not visited this tick are dropped",
                   "an instance can be dropped although its cgroup was visited", witness_path(ro, fd, i))
